@@ -187,6 +187,7 @@ class Index:
         self._resolve_bases()
         self._collect_rules()
         self._backend = None
+        self._mark_xnp_calls()
 
     # ------------------------------------------------------------------ digests
     def digest(self, rels=None):
@@ -762,6 +763,56 @@ class Index:
                         tab.setdefault(name, {})[b] = ("def", r.val[-1])
             self._backend = tab
         return self._backend
+
+    # ------------------------------------------------------------------ backend handles
+    def _mark_xnp_calls(self):
+        """tag every call `H.f(...)` whose receiver H is a backend handle with `_xnp_name = 'f'`:
+        `<expr>.xnp`, a parameter called xnp, or a local bound to one of those / to get_library_fns(...) / get_xnp(...)"""
+        def is_handle_expr(e, aliases):
+            if isinstance(e, ast.Attribute) and e.attr == "xnp":
+                return True
+            if isinstance(e, ast.Name) and e.id in aliases:
+                return True
+            if isinstance(e, ast.Call) and isinstance(e.func, ast.Name) and e.func.id in ("get_library_fns", "get_xnp"):
+                return True
+            if isinstance(e, ast.Call) and isinstance(e.func, ast.Attribute) and e.func.attr in ("get_library_fns", "get_xnp"):
+                return True
+            return False
+
+        def aliases_of(fi, inherited):
+            al = set(inherited)
+            a = fi.node.args
+            for x in a.posonlyargs + a.args + a.kwonlyargs:
+                if x.arg == "xnp":
+                    al.add("xnp")
+            changed = True
+            while changed:
+                changed = False
+                for n in ast.walk(fi.node):
+                    if isinstance(n, ast.Assign) and len(n.targets) == 1:
+                        t, v = n.targets[0], n.value
+                        if isinstance(t, ast.Name) and t.id not in al and is_handle_expr(v, al):
+                            al.add(t.id)
+                            changed = True
+                        elif isinstance(t, ast.Tuple) and isinstance(v, ast.Tuple) and len(t.elts) == len(v.elts):
+                            for a_, b_ in zip(t.elts, v.elts):
+                                if isinstance(a_, ast.Name) and a_.id not in al and is_handle_expr(b_, al):
+                                    al.add(a_.id)
+                                    changed = True
+            return al
+
+        def mark(fi, inherited):
+            al = aliases_of(fi, inherited)
+            fi.xnp_aliases = al
+            for n in ast.walk(fi.node):
+                if isinstance(n, ast.Call) and isinstance(n.func, ast.Attribute) and is_handle_expr(n.func.value, al | {"xnp"} if "xnp" in al else al):
+                    n._xnp_name = n.func.attr
+            for g in fi.nested.values():
+                mark(g, al)
+
+        for fi in list(self.funcs.values()):
+            if fi.parent is None:
+                mark(fi, set())
 
     # ------------------------------------------------------------------ convenience
     def func(self, modname, short):
